@@ -245,9 +245,14 @@ fn field_positions(entry: &str, file: &[u8]) -> Vec<usize> {
         let data = rd(4);
         let np = rd(8);
         let nl = rd(12);
-        // some data words (pointer / string cells, counts, offsets)
-        for k in 0..(data / 4).min(24) {
-            pos.push(0x20 + 4 * k);
+        // data words (pointer / string cells, counts, sizes, offsets): all of them for small data
+        // regions, else the first 8 and the last 56 (record tables sit at the end of an arc image,
+        // after the 0x60-byte zero header and the bodies)
+        let words = data / 4;
+        for k in 0..words {
+            if words <= 64 || k < 8 || k + 56 >= words {
+                pos.push(0x20 + 4 * k);
+            }
         }
         for k in 0..(np + 2 * nl).min(24) {
             pos.push(0x20 + data + 4 * k);
@@ -258,7 +263,7 @@ fn field_positions(entry: &str, file: &[u8]) -> Vec<usize> {
 
 fn mutate(entry: &str, file: &[u8], rng: &mut Rng) -> Vec<u8> {
     let mut v = file.to_vec();
-    match rng.below(10) {
+    match rng.below(11) {
         0 | 1 | 2 | 3 => {
             // plant one or two boundary values
             let pos = field_positions(entry, &v);
@@ -275,6 +280,30 @@ fn mutate(entry: &str, file: &[u8], rng: &mut Rng) -> Vec<u8> {
                 };
                 let x = base.wrapping_add(rng.below(3) as u32).wrapping_sub(1);
                 put_u32(&mut v, at, x, is_big(entry));
+            }
+        }
+        9 => {
+            // wrap-around candidates in the tail of the data region (arc records, pack entries, last cells)
+            let big = is_big(entry);
+            let rd = |v: &[u8], at: usize| {
+                let b = [v[at], v[at + 1], v[at + 2], v[at + 3]];
+                (if big { u32::from_be_bytes(b) } else { u32::from_le_bytes(b) }) as usize
+            };
+            if v.len() >= 0x24 && entry != "pack" {
+                let data = rd(&v, 4).min(v.len() - 0x20);
+                let words = data / 4;
+                if words > 0 {
+                    let k = words - 1 - rng.below(words.min(16) as u64) as usize;
+                    let high: [u32; 12] = [
+                        0xFFFF_FFFF, 0xFFFF_FFFE, 0xFFFF_FFA0, 0xFFFF_FF9F, 0xFFFF_FFA1, 0xFFFF_FFF0, 0x8000_0000, 0x7FFF_FFFF,
+                        data as u32, (data as u32).wrapping_sub(1), (data as u32).wrapping_add(1), (data as u32).wrapping_sub(0x60),
+                    ];
+                    put_u32(&mut v, 0x20 + 4 * k, *rng.pick(&high), big);
+                }
+            } else if entry == "pack" && v.len() >= 24 {
+                let k = rng.range(2, 5) as usize; // fields of the first entry
+                let high: [u32; 6] = [0xFFFF_FFFF, 0xFFFF_FFE0, 0x8000_0000, v.len() as u32, v.len() as u32 + 1, (v.len() as u32).wrapping_sub(1)];
+                put_u32(&mut v, 8 + 4 * k - 8, *rng.pick(&high), true);
             }
         }
         4 | 5 => {
